@@ -209,6 +209,18 @@ fn run(name: &str) -> String {
             b.merge(&a);
             format!("a(active,weight,err)={:?} merged total_weight={} ub(0)={} max_err={}", before, b.total_weight(), b.upper_bound(&0), b.maximum_error())
         }
+        "fi_empty_roundtrip" => {
+            let a = FrequentItemsSketch::<i64>::new(8);
+            let b = a.serialize();
+            format!("len={} bytes={:?} -> {:?}", b.len(), b, FrequentItemsSketch::<i64>::deserialize(&b).map(|s| s.is_empty()))
+        }
+        "fi_weight_sum_overflow" => {
+            let mut b = vec![4u8, 1, 10, 10, 4, 0, 0, 0]; b.extend_from_slice(&2u32.to_le_bytes()); b.extend_from_slice(&0u32.to_le_bytes());
+            b.extend_from_slice(&5u64.to_le_bytes()); b.extend_from_slice(&0u64.to_le_bytes());
+            b.extend_from_slice(&u64::MAX.to_le_bytes()); b.extend_from_slice(&u64::MAX.to_le_bytes());
+            b.extend_from_slice(&1i64.to_le_bytes()); b.extend_from_slice(&2i64.to_le_bytes());
+            format!("{:?}", FrequentItemsSketch::<i64>::deserialize(&b).map(|s| s.total_weight()))
+        }
         // ---------------- cpc
         "cpc_lgk21_serialize" => {
             let mut s = CpcSketch::new(21);
